@@ -155,6 +155,24 @@ def r2_r5_receive(ctx, fam):
                           reason='%s can be raised while events are still '
                           'buffered' % name, where=w, rid='C19.R5')
             if name == 'DisconnectedError':
+                # the emptiness test must be newer than the last wait: an
+                # event can arrive (followed by the final disconnect) while
+                # receive() is blocked in a wait
+                allw = [e for e in p.events if e.kind == 'call' and
+                        e.callee() == 'wait' and e.recv() in (IEV, CEV)]
+                lw = allw[-1].idx if allw else -1
+                fresh = [c for c in tests if c.at > lw and
+                         buf_empty(run, c)]
+                ctx.check(bool(fresh), construct, 'DisconnectedError is '
+                          'raised only after the buffer was found empty '
+                          '*after* the last wait', key='drain-after-wait',
+                          reason='an event that arrives while receive() '
+                          'waits (then the connection ends for good) is '
+                          'held back: DisconnectedError is raised without '
+                          're-testing the buffer after the wait at line %d'
+                          % (allw[-1].lineno if allw else 0), where=w,
+                          rid='C19.R5')
+            if name == 'DisconnectedError':
                 g = [c for c in p.conds if not c.pol and
                      U(run.expand(c.atom)) == 'self.connected']
                 ctx.check(bool(g), construct, 'DisconnectedError only when '
